@@ -720,6 +720,10 @@ class CNOTFactory(object):
         tg = 35*10**(-9)
         t_cr = t_cnot/2-tg
         p_cr = (4/3) * (1 - np.sqrt(np.sqrt((1 - (3/4) * p_cnot)**2 / ((1-(3/4)*p_single_ctr)**2 * (1-(3/4)*p_single_trg)))))
+        if p_cr < 0:
+            # The two-qubit error is smaller than the single-qubit errors of the pulse sequence imply: the
+            # cross-resonance pulses then carry no additional depolarizing error.
+            p_cr = 0
 
         # Sample gates
         first_cr = self.cr_c.construct(-np.pi/4, -phi_trg, t_cr, p_cr, T1_ctr, T2_ctr, T1_trg, T2_trg)
@@ -784,6 +788,10 @@ class CNOTInvFactory(object):
         tg = 35*10**(-9)
         t_cr = (t_cnot-3*tg)/2
         p_cr = (4/3) * (1 - np.sqrt(np.sqrt((1 - (3/4) * p_cnot)**2 / ((1-(3/4)*p_single_ctr)**2 * (1-(3/4)*p_single_trg)**3))))
+        if p_cr < 0:
+            # The two-qubit error is smaller than the single-qubit errors of the pulse sequence imply: the
+            # cross-resonance pulses then carry no additional depolarizing error.
+            p_cr = 0
 
         # Sample gates
         Ry = self.single_qubit_gate_c.construct(-np.pi/2, -phi_trg-np.pi/2+np.pi/2, p_single_trg, T1_trg, T2_trg)
@@ -849,6 +857,10 @@ class ECRFactory(object):
         tg = 35*10**(-9)
         t_cr = t_ecr/2-tg
         p_cr = (4/3) * (1 - np.sqrt(np.sqrt((1 - (3/4) * p_ecr)**2 / ((1-(3/4)*p_single_ctr)**2 * (1-(3/4)*p_single_trg)))))
+        if p_cr < 0:
+            # The two-qubit error is smaller than the single-qubit errors of the pulse sequence imply: the
+            # cross-resonance pulses then carry no additional depolarizing error.
+            p_cr = 0
 
         # Sample gates
         first_cr = self.cr_c.construct(np.pi/4, np.pi-phi_trg, t_cr, p_cr, T1_ctr, T2_ctr, T1_trg, T2_trg)
@@ -913,6 +925,10 @@ class ECRInvFactory(object):
         tg = 35*10**(-9)
         t_cr = t_ecr/2-tg
         p_cr = (4/3) * (1 - np.sqrt(np.sqrt((1 - (3/4) * p_ecr)**2 / ((1-(3/4)*p_single_ctr)**2 * (1-(3/4)*p_single_trg)))))
+        if p_cr < 0:
+            # The two-qubit error is smaller than the single-qubit errors of the pulse sequence imply: the
+            # cross-resonance pulses then carry no additional depolarizing error.
+            p_cr = 0
 
         # Sample gates
         first_cr = self.cr_c.construct(np.pi/4, np.pi-phi_trg, t_cr, p_cr, T1_ctr, T2_ctr, T1_trg, T2_trg)
